@@ -164,6 +164,11 @@ def case_list(nbase, step):
         for size in (131190, 131198, 131199, 131200, 131201, 131202, 131210, 262395, 262400, 262410, 300000):
             for style in ('lf', 'crlf'):
                 cases.append(('big', kind, style, size))
+    # a run of blank lines longer than the scan buffer: in the CR style every fill, also the one that reaches the end of
+    # the buffer, ends in a terminator that may be the first half of a pair
+    for size in (131150, 131199, 131200, 131201, 262400, 300000):
+        for style in ('lf', 'crlf', 'cr'):
+            cases.append(('big', 'blank-lines', style, size))
     # tokens of every kind deep inside a large document, where the scan buffer has filled up and is compacted
     # (about every 128 Ki characters), and a document that ends inside such a compaction window
     fine = 128 if step == 1 and nbase <= 3 else 256
@@ -207,6 +212,8 @@ def big_document(kind, size):
         return out + '_big small' + tail
     if kind == 'unquoted':
         return head + '_big ' + 'u' * size + tail          # also an over-length line: reported, then accepted
+    if kind == 'blank-lines':
+        return head + '_big small' + '\n' * size + tail
     # many CR LF pairs inside a long text field when restyled
     lines = ['ab' for _ in range(size // 3)]
     return head + '_big\n;' + '\n'.join(lines) + '\n;' + tail
